@@ -3,7 +3,8 @@ from .core import History
 from .runner import Hit
 
 ACCTS = ["a0", "a1", "a2"]
-KEYS = ["k", "k1", "k12", "~", "x", "xy"]
+# (%<hex>: raw bytes that are no valid UTF-8 — what an EVM storage slot looks like; all of them start with the byte 0x25)
+KEYS = ["k", "k1", "k12", "~", "x", "xy", "%25ff01", "%2580fe"]
 VALS = ["v1", "v2", "w", "zz", "~"]
 CODES = {"code1": "9a3f688fd6543508be48a13660f2d780f2601f617a3b44ef402f5b56eee7dd08",
          "code2": "06006085f233f903b528878a17f958db2bfba88148b76f5ae5abd6edbd4ddf41",
